@@ -681,7 +681,28 @@ impl QueryJob {
         let (rules, base_data) = storage
             .get_rules_and_data(&kg_name)
             .map_err(|e| format!("Failed to access knowledge graph: {e}"))?;
-        let ctx = ProofContext::new(&rules, &base_data, ProofConfig::default());
+        // Body atoms and negations over derived relations must be checked against what the
+        // engine derives (as `.why` does), not against the stored facts alone: evaluate the
+        // target relation to obtain the derived data. A relation without rules needs none.
+        let head_arity = rules
+            .iter()
+            .find(|r| r.head.relation == relation)
+            .map(|r| r.head.args.len())
+            .filter(|arity| *arity > 0);
+        let derived_data = match head_arity {
+            Some(arity) => {
+                let vars: Vec<String> = (0..arity).map(|i| format!("X{i}")).collect();
+                let vars = vars.join(", ");
+                let probe = format!("__query__({vars}) <- {relation}({vars})");
+                storage
+                    .execute_and_get_context(&kg_name, &probe)
+                    .map_err(|e| format!("{e}"))?
+                    .3
+            }
+            None => std::collections::HashMap::new(),
+        };
+        let ctx = ProofContext::new(&rules, &base_data, ProofConfig::default())
+            .with_derived_data(&derived_data);
         let query_us = query_start.elapsed().as_micros() as u64;
 
         let explain_start = std::time::Instant::now();
